@@ -10,7 +10,10 @@ import sys, os, json, subprocess, hashlib, time, shutil, re, argparse, concurren
 V = os.path.dirname(os.path.abspath(__file__))
 REPO = os.environ.get('VF_REPO', '/repo')
 SRC = os.path.join(REPO, 'src')
-BUILD = os.path.join(V, 'build')
+# VF_TAG: scratch mode for trying a modified source tree (VF_REPO) without touching build/, evidence/, replays/ of the real run
+TAG = os.environ.get('VF_TAG')
+BUILD = os.path.join(V, 'build', 'tag-' + TAG) if TAG else os.path.join(V, 'build')
+OUT = BUILD if TAG else V
 LL2C = os.path.join(V, 'll2c', 'll2c')
 sys.path.insert(0, V)
 import harnesses  # noqa: E402
@@ -437,9 +440,16 @@ def run_job(job, ndiff):
                     break
                 sys.stderr.write('[%s] unwind refinement round %d: +%s\n' % (job.id, _round, ' '.join(sorted(set(x.rsplit('.', 1)[0] for x in new - job.auto_unwindset))))); sys.stderr.flush()
                 job.auto_unwindset |= new
+                try:   # saved every round: an interrupted or timed-out refinement resumes from here
+                    if TAG:
+                        raise Exception('scratch mode')
+                    os.makedirs(os.path.dirname(cache), exist_ok=True)
+                    open(cache, 'w').write('\n'.join(sorted(job.auto_unwindset)) + '\n')
+                except Exception:
+                    pass
                 results = job.run_cbmc()
             r['unwind_refined_loops'] = sorted(job.auto_unwindset)
-            if job.auto_unwindset:
+            if job.auto_unwindset and not TAG:
                 try:
                     os.makedirs(os.path.dirname(cache), exist_ok=True)
                     open(cache, 'w').write('\n'.join(sorted(job.auto_unwindset)) + '\n')
@@ -523,7 +533,7 @@ def run_job(job, ndiff):
                     r['replays'].append(rep)
                     continue
                 nd = nd_from_trace(tr)
-                os.makedirs(os.path.join(V, 'replays'), exist_ok=True)
+                os.makedirs(os.path.join(OUT, 'replays'), exist_ok=True)
                 hsh = hashlib.sha256((job.id + d + repr(nd)).encode()).hexdigest()[:10]
                 ndp = os.path.join(job.dir, 'cex-%s.nd' % hsh)
                 write_nd(nd, ndp)
@@ -646,7 +656,7 @@ def main():
         violations.append((r, rep, kf))
     rc = 0
     for r, rep, kf in violations:
-        dst = os.path.join(V, 'replays', '%s-%s.json' % (a.prop, hashlib.sha256((r['id'] + rep['description']).encode()).hexdigest()[:10]))
+        dst = os.path.join(OUT, 'replays', '%s-%s.json' % (a.prop, hashlib.sha256((r['id'] + rep['description']).encode()).hexdigest()[:10]))
         os.makedirs(os.path.dirname(dst), exist_ok=True)
         json.dump({'property': a.prop, 'harness': r['id'], 'assertion': rep['description'], 'outcome': rep['outcome'], 'nd': rep.get('nd'), 'real_fail_labels': rep.get('real_fail_labels'), 'real_sanitizer': rep.get('real_sanitizer'),
                    'how_to_replay': './check %s --tier %s --replay %s:<nd file written from "nd">' % (a.prop, tier, r['id'])}, open(dst, 'w'), indent=1)
@@ -693,8 +703,8 @@ def write_evidence(prop, tier, seed, results, wall, nviol, knownhits):
         'wall_s': round(wall, 2),
         'violations': nviol,
     }
-    os.makedirs(os.path.join(V, 'evidence'), exist_ok=True)
-    with open(os.path.join(V, 'evidence', prop + '.json'), 'w') as f:
+    os.makedirs(os.path.join(OUT, 'evidence'), exist_ok=True)
+    with open(os.path.join(OUT, 'evidence', prop + '.json'), 'w') as f:
         json.dump(ev, f, indent=1, default=str)
 
 
